@@ -505,6 +505,9 @@ def far_scale_case(ctx, index, rng: random.Random):
         if raised is not None and dd:
             rec.fail(monitor="C06.scale.stats", op=form, symptom="a refused in-place scaling changed the histogram", diff=sorted(dd),
                      detail={"factor": repr(c), "error": f"{type(raised).__name__}: {raised}"[:120], "frequencies": np.asarray(a.frequencies).tolist()[:6]})
+        if has_negative and raised is None:
+            # C19: negative contents exist only where free arithmetics is enabled - scaling them outside of it is refused (up front)
+            rec.fail(prop="C19", monitor="C06.scale.stats", op=form, symptom="a histogram holding a negative bin was scaled although free arithmetics is off", diff=["not_refused"], detail={"factor": repr(c)})
         rec.case(["refused", s0["frequencies"], repr(c), form], has_negative and raised is not None, cls=f"refused_for_contents/{form}/{'raised' if raised is not None else 'accepted'}")
         return
     if rng.random() < 0.2:
